@@ -92,6 +92,9 @@ func (g *gen) addType(t *Type) int {
 // freshType creates a fresh identity-carrying type of a random kind and
 // returns its id.
 func (g *gen) freshType(allowIface bool) int {
+	if g.o.Static && g.r.Intn(100) < 40 {
+		return g.rawType()
+	}
 	k := g.r.Intn(100)
 	pkg := ""
 	if g.o.Ext && g.r.Intn(100) < 20 {
@@ -422,6 +425,13 @@ func (g *gen) newProv(depth int, result int) int {
 	}
 	p.Err = g.r.Float64() < g.o.ErrP
 	p.Lit = g.r.Intn(12) == 0
+	if g.o.Static && len(p.Params) > 0 && g.r.Intn(8) == 0 {
+		last := g.s.Types[p.Params[len(p.Params)-1]]
+		if last.Kind == KSlice || (last.Kind == KRaw && strings.HasPrefix(last.Raw, "[]")) {
+			p.Variadic = true
+			g.feature("variadic-provider")
+		}
+	}
 	for _, t := range p.Results {
 		g.done = append(g.done, t)
 	}
@@ -468,6 +478,9 @@ func Generate(seed int64, name string, o GenOpts) *Spec {
 		}
 		s.ExtPkgs = []ExtPkg{e}
 	}
+	if o.Static {
+		s.Dynamic = false
+	}
 	root := g.newProv(0, -1)
 	ret := s.Provs[root].Results[0]
 	// a few unneeded providers (must never run)
@@ -513,6 +526,9 @@ func Generate(seed int64, name string, o GenOpts) *Spec {
 		}
 	}
 	sortInts(cands)
+	if o.Hostile {
+		g.hostileDecls()
+	}
 	for j := 1; j < o.MultiInj && len(cands) > 0; j++ {
 		t := cands[r.Intn(len(cands))]
 		its := items
@@ -609,6 +625,7 @@ func (s *Spec) Clone() *Spec {
 		tt := *t
 		tt.Fields = append([]Field{}, t.Fields...)
 		tt.Impl = append([]int{}, t.Impl...)
+		tt.RawNames = append([]string{}, t.RawNames...)
 		c.Types = append(c.Types, &tt)
 	}
 	c.Provs = nil
